@@ -43,7 +43,7 @@ def plan(tier, seed):
         {'name': 'healpix_huge_x64', 'target': TARGET, 'x64': True, 'cases': huge, 'chunk': 1},
         {'name': 'pixel2index', 'target': TARGET, 'x64': False, 'cases': p2i, 'chunk': 4},
         {'name': 'pixel2index_x64', 'target': TARGET, 'x64': True, 'cases': p2i[::3] + [{'big': True}], 'chunk': 4},
-        {'name': 'healpix', 'target': TARGET, 'x64': False, 'cases': hpx, 'chunk': 1},
+        {'name': 'healpix', 'target': TARGET, 'x64': False, 'cases': hpx + [{'f32nside': 2048}, {'f32nside': 4096}], 'chunk': 1},
         {'name': 'healpix_x64', 'target': TARGET, 'x64': True, 'cases': hpx[:: (1 if tier == 'thorough' else 3)], 'chunk': 1},
         {'name': 'coverage', 'target': TARGET, 'x64': False, 'cases': cov, 'chunk': 1},
         {'name': 'coverage_x64', 'target': TARGET, 'x64': True, 'cases': cov[::4], 'chunk': 1},
@@ -126,6 +126,16 @@ def run(phase, cases, ctx):
                 gi = np.asarray(land.pixel2index(*[jnp.asarray([p[k] for p in ints], D) for k in range(len(pshape))]))
                 if sorted(gi.tolist()) != list(range(N)):
                     probs.append(f'integer in-map coordinates are not in bijection with 0..N-1: {sorted(gi.tolist())}')
+                # the same integer coordinates handed over as NumPy integer arrays, twice: same answer, arrays left alone
+                for idt in (np.int32, np.int64):
+                    carrs = [np.array([p[k] for p in ints], dtype=idt) for k in range(len(pshape))]
+                    keep = [c.copy() for c in carrs]
+                    g1 = np.asarray(land.pixel2index(*carrs))
+                    g2 = np.asarray(land.pixel2index(*carrs))
+                    if not np.array_equal(g1, gi) or not np.array_equal(g2, gi):
+                        probs.append(f'NumPy {np.dtype(idt)} coordinates: first call {g1.tolist()[:8]}, second call on the same arrays {g2.tolist()[:8]}, expected {gi.tolist()[:8]}')
+                    if any(not np.array_equal(c, k_) for c, k_ in zip(carrs, keep)):
+                        probs.append(f'NumPy {np.dtype(idt)} coordinate arrays were modified by pixel2index')
                 # row-major consistency with the map array: index i addresses map.ravel()[i]
                 m = np.arange(N).reshape(shape)
                 for p, i in zip(ints, gi):
@@ -134,6 +144,28 @@ def run(phase, cases, ctx):
                         break
                 for pr in probs:
                     violations.append({'kind': 'pixel2index', 'case': case, 'detail': pr})
+                nontrivial.add(json.dumps(case))
+                continue
+            if 'f32nside' in case:
+                # fine maps in 32-bit mode: pixel numbers beyond 2**24 (not all representable as float32) at their centres
+                import healpy as hp
+
+                ns = case['f32nside']
+                npix = 12 * ns * ns
+                pix = np.unique(np.concatenate([np.arange(0, npix, npix // 3000) | 1, np.arange(2 ** 24 - 5, 2 ** 24 + 40), np.arange(npix - 40, npix)]))
+                pix = pix[pix < npix]
+                th, ph = hp.pix2ang(ns, pix)
+                th32, ph32 = np.asarray(th, np.float32), np.asarray(ph, np.float32)
+                ok_ref = hp.ang2pix(ns, th32.astype(np.float64), ph32.astype(np.float64)) == pix
+                for eps in (3e-7, -3e-7):   # the float32 angle must be well inside the pixel for the comparison to mean anything
+                    ok_ref &= hp.ang2pix(ns, np.clip(th32.astype(np.float64) + eps * 4, 1e-9, np.pi - 1e-9), ph32.astype(np.float64) + eps * 4) == pix
+                land = HealpixLandscape(ns, 'I', jnp.float32)
+                got = np.asarray(land.world2index(jnp.asarray(th32), jnp.asarray(ph32)))
+                counters['directions'] += int(ok_ref.sum())
+                if not np.array_equal(got[ok_ref], pix[ok_ref]):
+                    bad = np.nonzero((got != pix) & ok_ref)[0]
+                    violations.append({'kind': 'healpix-world2index-float32', 'case': case,
+                                       'detail': f'nside {ns}: {len(bad)} of {int(ok_ref.sum())} pixel centres map elsewhere, e.g. pixels {pix[bad[:4]].tolist()} -> {got[bad[:4]].tolist()}'})
                 nontrivial.add(json.dumps(case))
                 continue
             if 'hugenside' in case:
